@@ -168,10 +168,23 @@ def do_run(filters):
                     break
         finally:
             drop(wt)
-    if not filters:
-        with open(os.path.join(SEEDED, "RESULTS.tsv"), "w") as f:
-            f.write("seeded change\tproperty\ttier\tresult\twall\tfirst line of the report\n")
-            for r in rows:
+    # RESULTS.tsv: a full run rewrites it; a filtered run replaces the rows of the
+    # changes it ran and drops rows of changes that are no longer kept
+    res = os.path.join(SEEDED, "RESULTS.tsv")
+    merged = {}
+    if filters and os.path.exists(res):
+        for line in open(res).read().splitlines()[1:]:
+            f = line.split("\t")
+            if len(f) >= 6 and f[0] in names:
+                merged.setdefault(f[0], []).append(tuple(f[:6]))
+    ran = {}
+    for r in rows:
+        ran.setdefault(r[0], []).append(r)
+    merged.update(ran)
+    with open(res, "w") as f:
+        f.write("seeded change\tproperty\ttier\tresult\twall\tfirst line of the report\n")
+        for name in sorted(merged):
+            for r in merged[name]:
                 f.write("\t".join(r) + "\n")
     missed = [r for r in rows if r[3] != "caught"]
     print("%d runs, %d not caught" % (len(rows), len(missed)))
